@@ -146,6 +146,23 @@ class SubprocessShim(object):
     def check_output(self, command, **kw):
         return self._w.run_compiler(command, kw)
 
+    def Popen(self, command, **kw):
+        if self._w.sched is None or self._w.sched.current() is None:
+            return _real_subprocess.Popen(command, **kw)
+        return FakePopen(self._w, command, **kw)
+
+    def getoutput(self, command):
+        return self.getstatusoutput(command)[1]
+
+    def getstatusoutput(self, command):
+        import shlex
+        cmd = shlex.split(command) if isinstance(command, str) else command
+        try:
+            out = self._w.run_compiler(cmd, {})
+            return 0, out.decode()
+        except _real_subprocess.CalledProcessError as exc:
+            return exc.returncode, (exc.output or b"").decode()
+
     def check_call(self, command, **kw):
         self._w.run_compiler(command, kw)
         return 0
@@ -167,6 +184,61 @@ class SubprocessShim(object):
                 raise
             out, rc = exc.output, exc.returncode
         return _real_subprocess.CompletedProcess(command, rc, out, b"")
+
+
+class _FakePipe(object):
+    def __init__(self, data):
+        self._data = data
+
+    def read(self, *a):
+        d, self._data = self._data, b""
+        return d
+
+    def close(self):
+        pass
+
+
+class FakePopen(object):
+    """subprocess.Popen over the scripted compiler: the child starts running
+    (concurrently with its parent) at construction; wait/communicate block."""
+
+    def __init__(self, world, command, **kw):
+        self._w = world
+        self.args = command
+        self.returncode = None
+        self._out = b""
+        self._child = world.start_compiler(command)
+        self.pid = 2000 + self._child.id
+        self.stdout = self.stderr = None
+
+    def poll(self):
+        if self._child.state == "done" and self.returncode is None:
+            self.wait()
+        else:
+            self._w.sched.yield_point("popen:poll")
+        return self.returncode
+
+    def wait(self, timeout=None):
+        if self.returncode is None:
+            self.returncode, self._out = self._w.wait_compiler(self._child)
+        return self.returncode
+
+    def communicate(self, input=None, timeout=None):
+        self.wait()
+        return self._out, b""
+
+    def kill(self):
+        self._w.sched.kill(self._child, True)
+        self.returncode = -9
+
+    terminate = kill
+
+    def __enter__(self):
+        return self
+
+    def __exit__(self, *exc):
+        self.wait()
+        return False
 
 
 class CtProxy(object):
